@@ -26,6 +26,23 @@ func validKey(key string) bool {
 	return path.Clean(key) == key
 }
 
+// checkKeyConflict refuses an object path that collides with the directories
+// other keys need: an ancestor below root that is a file ("a/b" when "a" is an
+// object), or the path itself being a directory ("a" when "a/b" is an object).
+// Some afero filesystems (MemMapFs) would otherwise silently replace one by
+// the other.
+func checkKeyConflict(fs afero.Fs, root, objectPath string) error {
+	if st, err := fs.Stat(filepath.FromSlash(objectPath)); err == nil && st.IsDir() {
+		return invalidKey(objectPath)
+	}
+	for dir := path.Dir(objectPath); dir != root && dir != "." && dir != "/"; dir = path.Dir(dir) {
+		if st, err := fs.Stat(filepath.FromSlash(dir)); err == nil && !st.IsDir() {
+			return invalidKey(objectPath)
+		}
+	}
+	return nil
+}
+
 func invalidKey(key string) error {
 	return gofakes3.ErrorInvalidArgument("key", key, "the key cannot be mapped to a file inside the bucket")
 }
